@@ -173,6 +173,16 @@ func (p *Program) Eval() Expected {
 				v[i] = in[o.K][vals[o.A][i]&mask]
 			}
 			vals = append(vals, v)
+		case "sload":
+			v := mk()
+			x := uint32(0)
+			for j := 0; j < o.N; j++ {
+				x ^= in[o.K][int(o.Imm)/4+j]
+			}
+			for i := range v {
+				v[i] = x
+			}
+			vals = append(vals, v)
 		case "lds":
 			v := mk()
 			for i, it := range items {
